@@ -69,6 +69,15 @@ def fn_of(mir, L, k):
     if len(hits) != 1: raise KeyError('with_simd of %s: %d' % (k, len(hits)))
     return mir.get(hits[0])
 
+def comm_norm(t):
+    """canonical argument order for the commutative IEEE operations of the ABS policy (x + y = y + x, x * y = y * x, fma(x, y, z) = fma(y, x, z) hold
+    bit for bit in IEEE-754, NaN payloads aside): two kernels that differ only in the order of such operands compute the same doubles"""
+    if t.num_args() == 0: return t
+    args = [comm_norm(t.arg(i)) for i in range(t.num_args())]; nm = t.decl().name()
+    if nm in ('f_add', 'f_mul') and len(args) == 2: args = sorted(args, key=str)
+    elif nm == 'f_fma' and len(args) == 3: args = sorted(args[:2], key=str) + [args[2]]
+    return t.decl()(*args)
+
 def sum_leaves(t, zero_names):
     """flatten an ABS-policy reduction result into (product leaves, ok) - only add/fma/mul nodes allowed"""
     leaves = []; ok = True; stack = [t]
@@ -104,7 +113,7 @@ def one(mirpath, k, lanes, ns):
                                 ref = reference(A, k, i, inp, sc)[f]
                                 if pol == 'R': bad.append(after[i].v != ref[0].v)
                                 else:
-                                    if not any(z3.eq(after[i].v, r.v) for r in ref): bad.append(z3.And(*[after[i].v != r.v for r in ref]))
+                                    if not any(z3.eq(after[i].v, r.v) for r in ref) and not any(z3.eq(comm_norm(after[i].v), comm_norm(r.v)) for r in ref): bad.append(z3.And(*[after[i].v != r.v for r in ref]))
                             else:
                                 if not z3.eq(after[i].v, inp[f][i].v): bad.append(after[i].v != inp[f][i].v)
                 else:
